@@ -66,7 +66,8 @@ for m in muts:
         rows.append((m["id"], "ok(harmless)" if ok else "FALSE-ALARM", "; ".join(failed + errors)[:300]))
     else:
         hit = [x for x in failed if m["expect"] in x]
-        rows.append((m["id"], "caught" if hit else ("caught-elsewhere" if failed else ("UNDECIDED" if errors else "MISSED")),
+        rows.append((m["id"], "caught" if hit else ("caught-elsewhere" if failed else
+                                                    (("undecided(expected)" if m.get("outside_subset") else "UNDECIDED") if errors else "MISSED")),
                      "; ".join((hit or failed or errors)[:3])[:300]))
 shutil.rmtree(base, ignore_errors=True)
 w = max(len(r[0]) for r in rows)
